@@ -96,6 +96,19 @@ def crafted_alignment(rng):
     return ("G", "data", False, False, [("Q", "top", True, True), ("R", "o", False, kids)])
 
 
+def crafted_indexed(rng):
+    """1..3 nested repeats (groups in between at random) holding the target; index questions and referrers at every level"""
+    k = rng.choice([1, 2, 3, 3])
+    names = ["family", "person", "pet"][:k] if rng.random() < 0.5 else ["r", "r1", "r11"][:k]
+    inner = [("Q", "tgt", True, True), ("Q", "c_in", True, False)]
+    for lvl in range(k - 1, -1, -1):
+        kids = [("Q", f"i{lvl}", True, True), *inner, ("Q", f"c{lvl}", True, False)]
+        if rng.random() < 0.3:
+            kids = [("G", f"gg{lvl}", False, False, kids)]
+        inner = [("R", names[lvl], False, kids)]
+    return ("G", "data", False, False, [("Q", "top", True, True), *inner, ("Q", "c_out", True, False)])
+
+
 def prefixy(rng, tree):
     """rename sections so that sibling names are string prefixes of one another (r, r1, r11; g, g_)"""
     names = iter(["r", "r1", "r11", "r2", "g", "g1", "g_", "r_1", "rr", "gg"])
@@ -177,6 +190,10 @@ def _check(args):
     seed, i = args
     rng = rng_for(seed, PID, "oracle", i)
     tree = layouts(rng, 1)[0]
+    force_indexed = i % 12 == 5
+    if force_indexed:
+        rng = rng_for(seed, PID, "oracle-indexed", i)
+        tree = crafted_indexed(rng)
     idx = ro.index_tree(tree)
     es = [e for e in elems(tree) if e[2][1] != "meta"]
     qs = [e for e in es if e[1] == "Q"]
@@ -194,6 +211,12 @@ def _check(args):
     tgt = rng.choice(tgts)
     tgt2 = rng.choice(tgts)
     mode = rng.choice(["plain", "plain", "two", "last_saved", "indexed"])
+    if force_indexed:
+        calcs = [q for q in qs if q[0].startswith("c")]
+        ctx = rng.choice(calcs)
+        tgt = next(q for q in qs if q[0] == "tgt")
+        tgts = [q for q in qs if q[0] != ctx[0]]
+        cell, mode = "calculation", "indexed"
     if cell != "calculation" and mode == "indexed":
         mode = "plain"
     if cell in ("choice_filter", "repeat_count") and mode != "plain":
@@ -206,6 +229,23 @@ def _check(args):
     expr = {"plain": f"{ref_text()} != 1", "two": f"{ref_text()} != 1 and ${{{tgt2[0]}}} != 2", "last_saved": f"{ref_text()} != 1"}.get(mode)
     ctx_is_select = cell == "choice_filter"
     external = ctx_is_select and rng.random() < 0.5
+    indexed_args = None
+    if mode == "indexed":
+        chain = [rp[-1] for rp in idx[tgt[0]][0][1]][:3]            # names of the repeats around the target, outermost first
+        if not chain:
+            chain = [reps[0][0] if reps else tgt[0]]
+        indexed_args = [("abs", tgt[0])]
+        idx_qs = [q for q in qs if q[0] not in (ctx[0], tgt[0])]
+        for rn in chain:
+            indexed_args.append(("abs", rn))
+            if idx_qs and rng.random() < 0.5:
+                indexed_args.append(("ref", rng.choice(idx_qs)[0]))
+            else:
+                indexed_args.append(("lit", rng.choice(["1", "2", "position(..)"])))
+        sep = rng.choice([", ", ",", " , "])
+        indexed_expr = "indexed-repeat(" + sep.join(a[1] if a[0] == "lit" else "${%s}" % a[1] for a in indexed_args) + ")"
+    default_op = rng.choice(["+", "-", "-"])
+    default_type = rng.choice(["text", "date", "dateTime", "integer", "geopoint", "decimal"])
 
     def cells_for(name, kind):
         if name != ctx[0]:
@@ -215,9 +255,9 @@ def _check(args):
         if cell == "hint":
             return {"hint": f"h {ref_text()}"}
         if cell == "default":
-            return {"default": f"{ref_text()} + 1"}
+            return {"default": f"{ref_text()} {default_op} 1"}
         if cell == "calculation":
-            return {"calculation": f"{ref_text()} + 1" if mode != "indexed" else f"indexed-repeat({ref_text()}, ${{{(reps[0][0] if reps else tgt[0])}}}, 1)"}
+            return {"calculation": f"{ref_text()} + 1" if mode != "indexed" else indexed_expr}
         if cell == "repeat_count":
             return {"repeat_count": ref_text()}
         if cell == "choice_filter":
@@ -238,6 +278,10 @@ def _check(args):
             if r.get("name") == ctx[0]:
                 r["type"] = "calculate"
                 r.pop("label", None)
+    if cell == "default":
+        for r in rows:
+            if r.get("name") == ctx[0] and r.get("type") == "text":
+                r["type"] = default_type
     st, r = xf.convert_form(forms.as_dict(form))
     if st != "ok":
         if st == "crash":
@@ -251,10 +295,22 @@ def _check(args):
     if val is None:
         return {"i": i, "skip": f"cell {cell} not located"}
     if mode == "indexed":
-        m = re.search(r"indexed-repeat\(\s*(\S+)\s*,", val)
-        if not m or m.group(1) != "/" + "/".join(tinfo[0]):
-            return {"i": i, "form": form, "what": f"indexed-repeat() first argument is not the absolute path of {tgt[0]}: {val!r}"}
-        return {"i": i, "ok": True, "key": (cell, mode, "abs"), "rel": False}
+        m = re.search(r"indexed-repeat\((.*)\)", val)
+        got = [a.strip() for a in m.group(1).split(",")] if m else []
+        if len(got) != len(indexed_args):
+            return {"i": i, "form": form, "what": f"indexed-repeat() has {len(got)} arguments instead of {len(indexed_args)}: {val!r}"}
+        for pos, ((akind, aname), g) in enumerate(zip(indexed_args, got)):
+            if akind == "abs":
+                want = "/" + "/".join(idx[aname][0][0])
+                if g != want:
+                    return {"i": i, "form": form, "what": f"indexed-repeat() argument {pos} (${{{aname}}}) is {g!r}, not the absolute path {want}: {val!r}"}
+            elif akind == "ref":
+                ev = ro.evaluate(" " + g + " ", cinfo[0])
+                if ev is None or ev["path"] != idx[aname][0][0]:
+                    return {"i": i, "form": form, "what": f"indexed-repeat() index argument {pos} (${{{aname}}}) became {g!r}, which does not denote /{'/'.join(idx[aname][0][0])}: {val!r}"}
+            elif g != aname:
+                return {"i": i, "form": form, "what": f"indexed-repeat() literal argument {pos} changed: {g!r} vs {aname!r}"}
+        return {"i": i, "ok": True, "key": (cell, mode, len(indexed_args)), "rel": False}
     ev = ro.evaluate(val, cinfo[0])
     if ev is None:
         return {"i": i, "form": form, "what": f"no path found in the {cell} of {ctx[0]}: {val!r}"}
